@@ -490,6 +490,40 @@ def run_grouped_multi(ctx):
                 break
 
 
+def run_explicit_ok(ctx):
+    """partial_credit=False looks at what the boxes EARN: an alternative worth less than 1 is not 'fully correct', whatever
+    ok value its author wrote beside the credit."""
+    from mitxgraders import ListGrader, StringGrader, NumericalGrader
+    rng = ctx.rng
+    for i in range(ctx.n(480, 6000)):
+        n = rng.randint(2, 4)
+        toks = ['a', 'b', 'c', 'd'][:n]
+        k = rng.randrange(n)
+        credit = rng.choice([0.5, 0.25, 0.99])
+        okv = rng.choice([True, True, 'partial', False])
+        numeric = rng.random() < 0.3
+        if numeric:
+            toks = ['1', '2', '3', '4'][:n]
+        answers = list(toks)
+        answers[k] = {'expect': toks[k], 'grade_decimal': credit, 'ok': okv}
+        ordered = rng.random() < 0.5
+        g = ListGrader(answers=answers, subgraders=NumericalGrader() if numeric else StringGrader(), ordered=ordered, partial_credit=False)
+        inputs = list(toks)
+        if not ordered:
+            rng.shuffle(inputs)
+        out = lib.call(ctx, g, None, list(inputs))
+        ctx.ev()
+        ctx.count('list_calls')
+        ctx.count('no_partial_credit_calls')
+        ctx.count('explicit_ok_cases')
+        wit = {'answers': answers, 'inputs': inputs, 'ordered': ordered, 'partial_credit': False, 'outcome': out.brief()}
+        ctx.nontrivial(wit)
+        if not out.returned:
+            ctx.violation('C05:explicit_ok:raises', repr(out.exc), wit)
+        elif any(e['grade_decimal'] != 0 for e in out.value['input_list']):
+            ctx.violation('C05:explicit_ok:no_partial_credit_rule', 'one box earns only %r, yet the entries are %r' % (credit, out.value['input_list']), wit)
+
+
 def run_singlelist_subgrader(ctx):
     """ListGrader whose subgrader is a SingleListGrader: every box holds a delimited list."""
     from mitxgraders import ListGrader, SingleListGrader
@@ -594,6 +628,7 @@ def run(ctx):
     run_flat(ctx)
     run_grouped(ctx)
     run_grouped_multi(ctx)
+    run_explicit_ok(ctx)
     run_singlelist_subgrader(ctx)
     ctx.count('munkres_solves_validated', TAP['solves'])
     for before, out, prob in TAP['bad'][:3]:
